@@ -5,6 +5,8 @@ CONSTANTS
   FbStartStop = {TRUE, FALSE}
   Rules <- RulesSS
   Events <- EventsS
+  BadRules <- BadNone
+  MaxRejected = 0
   MaxRules = 2
   MaxStatus = 1
   MaxRuns = 1
